@@ -74,6 +74,8 @@ pub struct RawElem {
     pub ty: u32,
     pub key: u32,
     pub val: u32,
+    pub att: u32,
+    pub fac: u32,
     pub pay: u32,
     pub tup: String,
     pub seq: u64,
@@ -108,7 +110,7 @@ impl RawDump {
     pub fn canon(&self) -> String {
         let mut ids: Vec<&String> = self.elems.keys().collect();
         ids.sort_by_key(|i| id_sort_key(i));
-        let elems: Vec<String> = ids.iter().map(|i| { let e = &self.elems[*i]; format!("{i}/{}/{}/{}/{}/{}/{}/{}/{}", e.version, e.state, e.ty, e.key, e.val, e.pay, e.tup, e.seq) }).collect();
+        let elems: Vec<String> = ids.iter().map(|i| { let e = &self.elems[*i]; format!("{i}/{}/{}/{}/{}/{}.{}.{}/{}/{}/{}", e.version, e.state, e.ty, e.key, e.val, e.att, e.fac, e.pay, e.tup, e.seq) }).collect();
         let journal: Vec<String> = self.journal.iter().map(|(s, st, ch, _, _)| format!("{s}/{st}/{ch}")).collect();
         let vlog: Vec<String> = self.vlog.iter().map(|(i, v, s, o, _)| format!("{i}/{v}/{s}/{o}")).collect();
         let j = |v: Vec<String>| if v.is_empty() { "-".to_string() } else { v.join(";") };
@@ -248,16 +250,16 @@ impl World {
                 let Ok(el) = store.get_element(ElementId::new(kind, n)).await else { continue };
                 let id = format!("{c}{n}");
                 let (full, mut e) = match &el {
-                    Element::Concept(r) => (serde_json::to_value(r).unwrap_or(Value::Null), RawElem { version: r.version, state: r.state.clone(), ty: type_code(&r.schema_ref), key: code_of(&r.key), val: code_of(&r.name), pay: 0, tup: "-".into(), seq: r.seq, schema_ref: r.schema_ref.clone(), key_text: r.key.clone(), tuple_key: String::new(), full: String::new() }),
+                    Element::Concept(r) => (serde_json::to_value(r).unwrap_or(Value::Null), RawElem { version: r.version, state: r.state.clone(), ty: type_code(&r.schema_ref), key: code_of(&r.key), val: code_of(&r.name), att: code_of(r.attributes.get("note").and_then(|v| v.as_str()).unwrap_or("")), fac: r.facets.iter().find(|(k, _)| k.as_str() == "MnemonicState" || k.ends_with("/MnemonicState")).and_then(|(_, f)| f.get("salience")).and_then(|v| v.as_f64()).map(|x| (x * 10.0).round() as u32).unwrap_or(0), pay: 0, tup: "-".into(), seq: r.seq, schema_ref: r.schema_ref.clone(), key_text: r.key.clone(), tuple_key: String::new(), full: String::new() }),
                     Element::Proposition(r) => {
                         let tup = if r.tuple_key.starts_with("pending:") || r.tuple_key.starts_with("purged:") { "-".to_string() } else {
                             format!("{}>{}>{}", compact_id(r.subject["id"].as_str().unwrap_or("?")), pred_code(&r.predicate_ref), compact_id(r.object["id"].as_str().unwrap_or("?")))
                         };
-                        (serde_json::to_value(r).unwrap_or(Value::Null), RawElem { version: r.version, state: r.state.clone(), ty: pred_code(&r.predicate_ref), key: 0, val: 0, pay: 0, tup, seq: r.seq, schema_ref: String::new(), key_text: String::new(), tuple_key: r.tuple_key.clone(), full: String::new() })
+                        (serde_json::to_value(r).unwrap_or(Value::Null), RawElem { version: r.version, state: r.state.clone(), ty: pred_code(&r.predicate_ref), key: 0, val: 0, att: 0, fac: 0, pay: 0, tup, seq: r.seq, schema_ref: String::new(), key_text: String::new(), tuple_key: r.tuple_key.clone(), full: String::new() })
                     }
-                    Element::Assertion(r) => (serde_json::to_value(r).unwrap_or(Value::Null), RawElem { version: r.version, state: r.state.clone(), ty: 0, key: 0, val: (r.status == "retracted") as u32, pay: if r.proposition_id.is_empty() { 0 } else { (r.confidence * 100.0).round() as u32 }, tup: "-".into(), seq: r.seq, schema_ref: String::new(), key_text: String::new(), tuple_key: String::new(), full: String::new() }),
-                    Element::Evidence(r) => (serde_json::to_value(r).unwrap_or(Value::Null), RawElem { version: r.version, state: r.state.clone(), ty: 0, key: 0, val: 0, pay: code_of(r.payload_inline.as_str().unwrap_or("")), tup: "-".into(), seq: r.seq, schema_ref: String::new(), key_text: String::new(), tuple_key: String::new(), full: String::new() }),
-                    Element::Activity(r) => (serde_json::to_value(r).unwrap_or(Value::Null), RawElem { version: r.version, state: r.state.clone(), ty: 0, key: 0, val: 0, pay: code_of(&r.parameters_digest), tup: "-".into(), seq: r.seq, schema_ref: String::new(), key_text: String::new(), tuple_key: String::new(), full: String::new() }),
+                    Element::Assertion(r) => (serde_json::to_value(r).unwrap_or(Value::Null), RawElem { version: r.version, state: r.state.clone(), ty: 0, key: 0, val: (r.status == "retracted") as u32, att: 0, fac: 0, pay: if r.proposition_id.is_empty() { 0 } else { (r.confidence * 100.0).round() as u32 }, tup: "-".into(), seq: r.seq, schema_ref: String::new(), key_text: String::new(), tuple_key: String::new(), full: String::new() }),
+                    Element::Evidence(r) => (serde_json::to_value(r).unwrap_or(Value::Null), RawElem { version: r.version, state: r.state.clone(), ty: 0, key: 0, val: 0, att: 0, fac: 0, pay: code_of(r.payload_inline.as_str().unwrap_or("")), tup: "-".into(), seq: r.seq, schema_ref: String::new(), key_text: String::new(), tuple_key: String::new(), full: String::new() }),
+                    Element::Activity(r) => (serde_json::to_value(r).unwrap_or(Value::Null), RawElem { version: r.version, state: r.state.clone(), ty: 0, key: 0, val: 0, att: 0, fac: 0, pay: code_of(&r.parameters_digest), tup: "-".into(), seq: r.seq, schema_ref: String::new(), key_text: String::new(), tuple_key: String::new(), full: String::new() }),
                 };
                 e.full = full.to_string();
                 d.elems.insert(id, e);
@@ -296,7 +298,9 @@ impl World {
             // "some other row refers to it": its id occurs, quoted, in another row (references are
             // stored as id strings; a row never spells its own id)
             let quoted = format!("\"{}\"", real_id(id));
-            let referenced = raw.elems.iter().any(|(j, o)| j != id && o.full.contains(&quoted));
+            // (an `asserted_by` given as a plain id string is a literal actor name, not a reference)
+            let literal_actor = format!("\"asserted_by\":{quoted}");
+            let referenced = raw.elems.iter().any(|(j, o)| j != id && o.full.replace(&literal_actor, "").contains(&quoted));
             if e.state != "purged" {
                 k.all.push((id.clone(), e.version, referenced));
             }
